@@ -23,6 +23,7 @@ pub struct Tr {
     pub imports: RefCell<Vec<String>>,
     pub callees: RefCell<BTreeSet<String>>,
     pub local_consts: RefCell<Vec<(String, i128)>>,
+    pub local_const_tys: RefCell<Vec<(String, Ty)>>,
 }
 
 pub fn lookup(env: &Env, n: &str) -> Option<Ty> {
@@ -128,7 +129,8 @@ impl Tr {
         let last = &segs[n - 1];
         if n == 1 {
             if let Some((_, v)) = self.local_consts.borrow().iter().rev().find(|(m, _)| m == last) {
-                return Some((zlit(*v), Ty::Int("i32")));
+                let t = self.local_const_tys.borrow().iter().rev().find(|(m, _)| m == last).map(|(_, t)| t.clone()).unwrap_or(Ty::Unknown);
+                return Some((zlit(*v), t));
             }
         }
         if n == 2 && (last == "MIN" || last == "MAX") {
